@@ -52,6 +52,8 @@ end
 
 instance : Inhabited Stmt := ⟨.mk []⟩
 instance : Inhabited Part := ⟨.filler []⟩
+instance : Inhabited NTree := ⟨.one default default⟩
+instance : Inhabited GTree := ⟨.grp default⟩
 
 def Stmt.parts : Stmt → List Part
   | .mk ps => ps
@@ -136,20 +138,6 @@ def denoteChain (o : Op3) (sl sr : List Str) (acc : PNode) : List Expr → PNode
   | e :: es => denoteChain o sl sr (.comb o.str [] [] {} [] acc (denoteE [] [] e)) es
 end
 
-def PNode.withMeta (f : Meta → Meta) : PNode → PNode
-  | .leaf t sl sr m p => .leaf t sl sr (f m) p
-  | .comb op sl sr m p l r => .comb op sl sr (f m) p l r
-  | .stmt m fs => .stmt (f m) fs
-  | .pairs m ns => .pairs (f m) ns
-  | .empty => .empty
-
-def PNode.meta : PNode → Meta
-  | .leaf _ _ _ m _ => m
-  | .comb _ _ _ m _ _ _ => m
-  | .stmt m _ => m
-  | .pairs m _ => m
-  | .empty => {}
-
 def hdrMeta (h : Hdr) (m : Meta) : Meta :=
   { m with ct := h.sym.name, sfx := h.sfx, ann := h.anno.map (fun a => '[' :: a ++ [']']) }
 
@@ -185,8 +173,10 @@ def denoteSimple : List Part → PStmt → PStmt
 def denoteCombos : List Part → PStmt → PStmt
   | [], acc => acc
   | .ncomb h t :: ps, acc =>
+    -- the combination's root carries the symbol (as component type and as left shared text);
+    -- the statements below it carry only their own suffix / annotation
     let n := match denoteN t with
-      | .comb op _ sr m p l r => PNode.comb op [h.sym.name] sr m p l r
+      | .comb op _ sr m p l r => PNode.comb op [h.sym.name] sr { m with ct := h.sym.name } p l r
       | x => x
     denoteCombos ps (match h.sym.complex with | some f => addField opAND f n acc | none => acc)
   | _ :: ps, acc => denoteCombos ps acc
@@ -197,7 +187,7 @@ def denoteNested : List Part → PStmt → PStmt
     denoteNested ps (match h.sym.complex with | some f => addField opAND f n acc | none => acc)
   | _ :: ps, acc => denoteNested ps acc
 def denoteN : NTree → PNode
-  | .one h s => .stmt (hdrMeta h {}) (denoteS s)
+  | .one h s => .stmt { (hdrMeta h {}) with ct := [] } (denoteS s)
   | .op o l r => .comb o.str [] [] {} [] (denoteN l) (denoteN r)
 end
 
